@@ -12,6 +12,7 @@ import (
 	"fmt"
 	"os"
 	"path/filepath"
+	"regexp"
 	"strings"
 
 	"verif/internal/ev"
@@ -66,6 +67,21 @@ func buildC11(c *c11Case) *liveCase {
 		lc.Quiet = true
 	case "options:quiet-no-logdir":
 		lc.Quiet, lc.NoLogDir = true, true
+	}
+	if c.Variant == "uncommitted-own" && lc.HTTP != nil {
+		dp, _ := lc.HTTP.Panos.(*sim.DumbPanos)
+		if dp == nil {
+			run.Fatal("uncommitted-own: no PAN-OS backend")
+		}
+		// Candidate configuration with uncommitted changes of the login
+		// user (left by an interrupted approve): PAN-OS marks such nodes.
+		re := regexp.MustCompile(`<entry name="([^"]+)">`)
+		dp.Devices = re.ReplaceAllStringFunc(dp.Devices, func(m string) string {
+			if strings.Contains(m, "localhost") || strings.Contains(m, "vsys") {
+				return m
+			}
+			return strings.TrimSuffix(m, ">") + ` admin="admin" dirtyId="7" time="2024/09/29 10:00:00">`
+		})
 	}
 	if c.Variant == "unknown-interface" && lc.Cli != nil {
 		lc.Cli.Config = strings.ReplaceAll(lc.Cli.Config, "nameif inside", "nameif dmz")
@@ -141,7 +157,10 @@ func checkC11(tier, replay string) int {
 			lr.cleanup()
 		})
 		for i, k := range keys {
-			for _, v := range []string{"healthy", "marker-absent", "wrong-hostname", "unknown-interface", "not-configured"} {
+			for _, v := range []string{"healthy", "marker-absent", "wrong-hostname", "unknown-interface", "not-configured", "uncommitted-own"} {
+				if v == "uncommitted-own" && k.typ != "panos" {
+					continue
+				}
 				if v == "unknown-interface" && k.typ != "asa" && k.typ != "ios" {
 					continue
 				}
